@@ -113,7 +113,9 @@ def rule_skip_edge(ctx, prop, statuses=("Skip", "NotInRange")):
                 for bi, c, t in st.calls:
                     if HARMLESS.search(c):
                         continue
-                    if status in ("NotInRange", "NotNormal") and BLOCK_PATH.search(c):
+                    # a path that only knows "not Normal" covers the Skip case too: for the ignore property it
+                    # must be as clean as the Skip edge; the out-of-range path may enter stmt_block
+                    if BLOCK_PATH.search(c) and (status == "NotInRange" or (status == "NotNormal" and "Skip" not in statuses)):
                         continue
                     bad.append(c)
                 # returned value: the node itself
@@ -294,6 +296,22 @@ def rule_toggle(ctx, prop):
                     if ap[0][0] == "arg" and not ap[1]:
                         continue
                 n += 1
+                if toggled:
+                    # ... toggled with *this* element, before it is asked about
+                    import r_replace
+                    wants = {r_replace._base_key(f, t["args"][1])}
+                    # a mutable local holding the formatted element (`let mut stmt = format_stmt(&ctx, stmt, ..)`)
+                    for w in list(wants):
+                        if w.startswith("local:") and "." not in w:
+                            for dbi, dsi, ds in f.defs().get(int(w.split(":")[1]), []):
+                                if dsi == "term" and len(ds["args"]) > 1:
+                                    wants.add(r_replace._base_key(f, ds["args"][1]))
+                    same = False
+                    for b2, t2 in f.calls():
+                        if callee(t2) == TOGGLE and r_replace._base_key(f, t2["args"][1]) in wants and \
+                                (f.dominates(b2, b) or b2 == b):
+                            same = True
+                    toggled = same
                 rep.inst(f"{f.key} {c.split('::')[-1]} uses-toggled-context", {"fn": f.key, "at": f.loc(t["sp"])},
                          cfg, ok=toggled)
                 if not toggled:
